@@ -148,3 +148,58 @@ def reachable_invariants(chk, F, which, rule):
     """facts about every reachable code typestate that other properties rely on"""
     model, spec, P, allp = product(F, which)
     return P
+
+
+def reachable_site_verdicts(F):
+    """construction sites inside scanner code, judged on the reachable typestates of the three products (all channels):
+    -> (site -> [ok, text, visits], complete, private scanner types).  `complete` is False when some exploration was cut
+    short or lost a path, in which case an absent bad observation proves nothing."""
+    out, complete, types = {}, True, set()
+    rank = {True: 0, None: 1, False: 2}
+    for which, (cls, name) in SCANNERS.items():
+        if which == 'polling' and 'std' not in F.features:
+            continue
+        try:
+            model, spec, P, allp = product(F, which)
+        except Exception:       # noqa
+            complete = False
+            continue
+        types |= scanner_types(F, model)
+        for k, Pk in allp.items():
+            # (rows that disagree with the reference automaton are not followed up: the reachable set is then incomplete)
+            if getattr(Pk, 'exhausted', False) or Pk.mismatches or any(r.outcome_kind == 'lost' for r in Pk.rows):
+                complete = False
+            for site, (ok, txt, n) in getattr(Pk, 'site_ok', {}).items():
+                cur = out.get(site)
+                if cur is None:
+                    out[site] = [ok, txt, n]
+                else:
+                    cur[2] += n
+                    if rank[ok] > rank[cur[0]]:
+                        cur[0], cur[1] = ok, txt
+    return out, complete, types
+
+
+def scanner_types(F, model):
+    """the public scanner type and the crate-private types its state is made of"""
+    seen = set([model.outer])
+
+    def walk(ty):
+        if ty['k'] == 'adt':
+            ad = F.adts.get(ty['path'])
+            if ad is not None and ty['path'] not in seen and not ad['vis'] == 'Public':
+                seen.add(ty['path'])
+                for v in ad['variants']:
+                    for f in v['fields']:
+                        walk(f['ty'])
+            for a in ty.get('args') or []:
+                if a.get('k') not in ('lifetime', 'constarg'):
+                    walk(a)
+        elif ty['k'] in ('array', 'slice', 'ref'):
+            walk(ty['ty'])
+        elif ty['k'] == 'tuple':
+            for t in ty['tys']:
+                walk(t)
+    for f in F.adts[model.outer]['variants'][0]['fields']:
+        walk(f['ty'])
+    return seen
